@@ -350,15 +350,15 @@ def element_candidates(doc, si, rnd):
         if df[0] == 'e':
             v = '' if raw is None or not raw else raw[0]
             for kind, pos, sub, nv, code in value_faults(df[1], i, None, v, type_list(node, sid, elems, i)):
-                yield kind, pos, sub, with_value(elems, i, None, nv), ('ele', code, pos, None)
+                yield kind, pos, sub, with_value(elems, i, None, nv), ('ele', code, pos, None, nv)
         else:
             usage, kids = df[1], df[2]
             vals = [] if raw is None else list(raw)
             present = any(x != '' for x in vals)
             if usage == 'N':
-                if not present and kids and not kids[0].dangling:
-                    yield ('composite-not-used', i + 1, None, with_value(elems, i, 0, c15.good_value(kids[0], codesets)),
-                           ('ele', '5', i + 1, None))
+                if not present:
+                    fillv = c15.good_value(kids[0], codesets) if (kids and not kids[0].dangling) else 'X'
+                    yield 'composite-not-used', i + 1, None, with_value(elems, i, 0, fillv), ('ele', '5', i + 1, None)
                 continue
             if present:
                 if usage == 'R' and not is_key_position(node, sid, i, 0) and i != 0:
@@ -373,7 +373,7 @@ def element_candidates(doc, si, rnd):
                     if i == 0 and j == 0:
                         continue          # 01-1 is the match key of the segment
                     for kind, pos, sub, nv, code in value_faults(d, i, j, v, ()):
-                        yield kind, pos, sub, with_value(elems, i, j, nv), ('ele', code, pos, sub)
+                        yield kind, pos, sub, with_value(elems, i, j, nv), ('ele', code, pos, sub, nv)
     # too many elements
     ne = [list(e) for e in elems]
     while len(ne) < n:
@@ -523,7 +523,7 @@ def structural_candidates(doc, rnd, kinds):
             k = doc.sets[i]
             texts, sets = edit(ins=(i, ['ZZZ*1'], k))
             yield dict(kind='unknown-segment', si=i, set=k, texts=texts, sets=sets, seg_id='ZZZ',
-                       primary=('seg', ('1',), 'ZZZ'), segpos=i - set_start(doc, k) + 1, skip=[i], base_skip=[],
+                       primary=('seg', ('1',), 'ZZZ'), segpos=i - set_start(doc, k) + 1, skip=[i], base_skip=[], line_idx=i,
                        where=doc.nodes[i].get_path() if doc.nodes[i] is not None else '?')
     if 'unknown-segment-outside-set' in kinds:
         ids = [parse_seg(t)[0] for t in doc.texts]
@@ -557,14 +557,17 @@ def structural_candidates(doc, rnd, kinds):
             p0 = i - set_start(doc, k) + 1
             yield dict(kind='missing-required-segment', si=i, set=k, texts=texts, sets=sets, seg_id=sid,
                        primary=('seg', ('3',), sid), segpos=p0, segpos_hi=p0 + run_len, skip=[], base_skip=[i], where=n.get_path(),
-                       next_is_se=doc.texts[i + 1 + run_len].startswith('SE*'))
+                       next_is_se=doc.texts[i + 1 + run_len].startswith('SE*'),
+                       variant=('first-segment-alone-then-the-loop-repeats'
+                                if (inst.start == i - 1 and run_len == 0 and doc.nodes[i + 1] is first_child(inst.loop)
+                                    and chain(doc.nodes[i + 1])[-1:] == [inst.loop]) else None))
         if 'segment-max-use' in kinds and not is_first and same[-1] == i:
             mx = n.get_max_repeat()
             if mx <= 6 and len(same) <= mx:
                 add = mx - len(same) + 1
                 texts, sets = edit(ins=(i + 1, [doc.texts[i]] * add, k))
                 yield dict(kind='segment-max-use', si=i, set=k, texts=texts, sets=sets, seg_id=sid,
-                           primary=('seg', ('5',), sid), segpos=i + add - set_start(doc, k) + 1,
+                           primary=('seg', ('5',), sid), segpos=i + add - set_start(doc, k) + 1, line_idx=i + add,
                            skip=list(range(i + 1, i + 1 + add)), base_skip=[], where=n.get_path(),
                            copies=[(i + 1 + q, i) for q in range(add)])
         if 'out-of-place-segment' in kinds and not is_first and (n.usage == 'S' or len(same) > 1):
@@ -609,7 +612,7 @@ def structural_candidates(doc, rnd, kinds):
             fix_se(texts, sets, k)
             first = x.end + len(span) * (add - 1)
             yield dict(kind='loop-repeat', si=x.start, set=k, texts=texts, sets=sets, seg_id=ids[0],
-                       primary=('seg', ('4',), ids[0]), segpos=first - set_start(doc, k) + 1,
+                       primary=('seg', ('4',), ids[0]), segpos=first - set_start(doc, k) + 1, line_idx=first,
                        skip=list(range(x.end, x.end + len(span) * add)), base_skip=[], where=l.get_path(),
                        copies=[(x.end + q, x.start + q % len(span)) for q in range(len(span) * add)])
 
@@ -708,6 +711,10 @@ def judge(doc, base_nodes, f, run, nodes_f, nset):
         if kind == 'unknown-segment-outside-set':
             out.append(('pred:unknown-segment-outside-set:swallowed',
                         'unknown segment %s: verdict %r, %d error(s) in the tree' % (f['variant'], run.verdict, len(errs))))
+        elif kind == 'missing-required-segment' and f.get('variant'):
+            out.append(('pred:missing-required-segment:unreported-when-only-the-first-segment-precedes-a-repeat-of-the-loop',
+                        '%s (required) removed, leaving the loop instance with its first segment only, next segment opens the '
+                        'next instance: verdict %r, %d error(s)' % (f['seg_id'], run.verdict, len(errs))))
         else:
             out.append(('pred:%s:accepted' % kind, 'verdict %r with %d error(s)' % (run.verdict, len(errs))))
         return out, info
@@ -741,6 +748,8 @@ def judge(doc, base_nodes, f, run, nodes_f, nset):
             if e['level'] == 'seg' and e['code'] in prim[1]:
                 found = True
                 explained.append(e)
+                if 'line_idx' in f and e['line'] != f['line_idx'] + 1:
+                    out.append(('pred:%s:wrong-source-line' % kind, 'segment is on line %d, the error says %r' % (f['line_idx'] + 1, e['line'])))
         if not found:
             anyw = [e for e in errs if e['level'] == 'seg' and e.get('seg_id') == f['seg_id']]
             if kind == 'out-of-place-segment' and any(e['level'] == 'seg' and e['code'] == '1' for e in here):
@@ -770,6 +779,12 @@ def judge(doc, base_nodes, f, run, nodes_f, nset):
         for e in here:
             if e['level'] == 'ele' and matches(prim, (e['code'], e['pos'], e['sub'])):
                 found = True
+                if e['line'] != f['si'] + 1:
+                    out.append(('pred:%s:wrong-source-line' % kind, 'segment is on line %d, the error says %r' % (f['si'] + 1, e['line'])))
+                if f.get('newv') and kind in ('too-long', 'too-short', 'code-list', 'char-class', 'bad-date', 'bad-time') \
+                        and e['value'] != f['newv']:
+                    out.append(('pred:%s:offending-value-not-reported' % kind, 'injected %r, the error carries %r' % (f['newv'], e['value'])))
+                break
         if not found:
             code = prim[1]
             same_code_here = [e for e in here if e['level'] == 'ele' and e['code'] == code]
@@ -830,22 +845,36 @@ def judge(doc, base_nodes, f, run, nodes_f, nset):
         at_seg = lambda e: e['set'] == f['set'] and e.get('seg_count') is not None and f['segpos'] <= e['seg_count'] <= hi and e.get('seg_id') == f['seg_id']
         sat = set()
         rest = []
-        for e in errs:
-            if any(e is x for x in explained):
-                continue
-            hit = None
+        items = sorted(imp, key=lambda it: (it[0] != 'ele', repr(it)))      # exact element items first
+        cand_errs = [e for e in errs if not any(e is x for x in explained)]
+
+        def adj(e):
             if at_seg(e) and e['level'] == 'ele':
-                hit = [it for it in imp if it[0] in ('ele', 'syn') and matches(it, (e['code'], e['pos'], e['sub']))]
-            elif at_seg(e) and e['level'] == 'seg':
-                hit = [it for it in imp if it[0] == 'seg' and e['code'] in it[1]]
-            if hit:
-                fresh = [it for it in hit if it not in sat]
-                if fresh:
-                    sat.add(fresh[0])
-                elif e['level'] == 'ele' and any(it not in sat and it[0] in ('ele', 'syn') and it[1] == e['code'] for it in imp):
-                    rest.append(e)      # a second report of the same code while another implied item of that code is outstanding
-            else:
-                rest.append(e)
+                return [j for j, it in enumerate(items) if it[0] in ('ele', 'syn') and matches(it, (e['code'], e['pos'], e['sub']))]
+            if at_seg(e) and e['level'] == 'seg':
+                return [j for j, it in enumerate(items) if it[0] == 'seg' and e['code'] in it[1]]
+            return []
+        owner = {}
+
+        def augment(i, seen):
+            for j in adj(cand_errs[i]):
+                if j in seen:
+                    continue
+                seen.add(j)
+                if j not in owner or augment(owner[j], seen):
+                    owner[j] = i
+                    return True
+            return False
+        for i in range(len(cand_errs)):
+            augment(i, set())
+        matched = set(owner.values())
+        sat.update(items[j] for j in owner)
+        for i, e in enumerate(cand_errs):
+            if i in matched:
+                continue
+            if adj(e) and not (e['level'] == 'ele' and any(it not in sat and it[0] in ('ele', 'syn') and it[1] == e['code'] for it in imp)):
+                continue            # a second report of an implied item (the spec is set-valued)
+            rest.append(e)
         if prim in imp and (found or explained):
             sat.add(prim)
         if prim[0] == 'seg' and (found or explained):
@@ -897,10 +926,10 @@ def plan(tier, seed):
     jobs = []
     if tier == 'thorough':
         per = max(1, 300 // len(entries))
-        for ei in range(len(entries)):
-            for j in range(per):
+        for j in range(per):            # round robin over the maps, so that a time limit cuts all maps alike
+            for ei in range(len(entries)):
                 nset = (1, 2, 3)[j % 3]
-                jobs.append((ei, [rnd.randrange(1 << 30) for _ in range(nset)], rnd.choice((0.15, 0.3, 0.5)) if j else 0.0,
+                jobs.append((ei, [rnd.randrange(1 << 30) for _ in range(nset)], rnd.choice((0.1, 0.2, 0.35)) if j else 0.0,
                              rnd.choice((1, 2)), None))
     else:
         for ei in range(len(entries)):
@@ -919,7 +948,7 @@ def work(job):
     entry = entries[ei]
     rnd = random.Random('%d/%d/%r' % (seed, ei, seeds))
     res = dict(entry=entry['map_file'], nset=len(seeds), cases=[], skipped=None, applic={}, run={}, ops=[], maps=set(),
-               lines=[], errkinds={}, rematch=0, self_rematch=0, seglen=0, timeout=False, rejected_conformant={})
+               lines=[], errkinds={}, rematch=0, self_rematch=0, seglen=0, timeout=False, rejected_conformant={}, rejected_docs={})
     doc = None
     for attempt in range(5):
         try:
@@ -930,8 +959,15 @@ def work(job):
         base = pipeline.validate(d.text())
         if base.exc is not None or base.verdict is not True or (base.errh is not None and read_tree(base.errh)):
             # the validator rejects a conformant document: a C02 finding, not a C03 case - counted, another seed is tried
-            why = 'conformant document not accepted (C02 matter): %r' % (((base.errors or [base.exc])[0])[:3],)
+            if base.exc is not None:
+                why = 'crash:%s:%s:%s' % base.exc[:3]
+            elif base.errors:
+                e0 = base.errors[0]
+                why = 'map:%s:%s:%s:%s' % (entry['map_file'], e0[0], e0[1], e0[2])      # the key C02 reports it under
+            else:
+                why = 'pred:verdict-false-without-error'
             res['rejected_conformant'][why] = res['rejected_conformant'].get(why, 0) + 1
+            res['rejected_docs'].setdefault(why, d.text())
             seeds = [rnd.randrange(1 << 30) for _ in seeds]
             continue
         doc = d
@@ -945,6 +981,7 @@ def work(job):
     tb = _TB
     base_nodes, base_real, base_ops, why = node_trace(tb, doc.text())
     res['ops'].append(('base', base_real, base_ops))
+    base_cb = [p if p is not None else 'none' for _, p in base.nodes]
     mapfile, icvn = entry['map_file'], entry['icvn']
     # ---- enumerate
     cands = {}
@@ -955,6 +992,8 @@ def work(job):
         if sid in ENVELOPE:
             continue
         for kind, pos, sub, ne, prim in element_candidates(doc, si, rnd):
+            newv = prim[4] if len(prim) > 4 else None
+            prim = prim[:4] if prim[0] == 'ele' else prim
             imp = implied(n, mapfile, icvn, sid, ne)
             if not any(it == prim for it in imp):
                 res['applic']['n/a:%s:not-implied-by-the-element-spec' % kind] = res['applic'].get('n/a:%s:not-implied-by-the-element-spec' % kind, 0) + 1
@@ -965,7 +1004,7 @@ def work(job):
             f = dict(kind=kind, si=si, set=doc.sets[si], texts=texts, sets=doc.sets, seg_id=sid, primary=prim,
                      segpos=seg_count_of(doc, si), skip=[], base_skip=[], ele_fault=True, implied=imp, nchildren=len(n.children),
                      comp_positions=[i + 1 for i, c in enumerate(n.children) if c.is_composite()],
-                     where=n.get_path(), ele=pos, subele=sub, new_elems=ne)
+                     where=n.get_path(), ele=pos, subele=sub, new_elems=ne, newv=newv)
             cands.setdefault(kind, []).append(f)
     for f in structural_candidates(doc, rnd, STRUCT_KINDS):
         f.setdefault('implied', {('seg', f['primary'][1])})
@@ -983,8 +1022,14 @@ def work(job):
             b = budget * (2 if k in ('too-many-elements', 'unknown-segment') else 1)
             if k == 'unknown-segment-outside-set':
                 chosen += v
+            elif k == 'missing-required-segment':
+                special = [x for x in v if x.get('variant')]
+                pick = rnd.sample(v, min(b, len(v)))
+                chosen += pick + [x for x in special[:2] if not any(x is y for y in pick)]
             else:
                 chosen += rnd.sample(v, min(b, len(v)))
+    if budget is None:
+        rnd.shuffle(chosen)
     # ---- run
     for f in chosen:
         if deadline and time.time() > deadline:
@@ -992,12 +1037,19 @@ def work(job):
             break
         text = doc.text(f['texts'])
         run = pipeline.validate(text)
-        nodes_f, real_f, ops_f, why = node_trace(tb, text)
+        use_trace = budget is not None or not f.get('ele_fault') or f['ele'] <= 3 or rnd.random() < 0.1
+        if use_trace:
+            nodes_f, real_f, ops_f, why = node_trace(tb, text)
+        else:
+            # thorough tier, element beyond the positions any segment is matched on: the matched nodes as the
+            # validation run itself reported them (callback), against the conformant run's
+            nodes_f = [p if p is not None else 'none' for _, p in run.nodes]
         if f['kind'] == 'out-of-place-segment' and (f['must_be_unmatched'] >= len(nodes_f) or nodes_f[f['must_be_unmatched']] != 'none'):
             res['applic']['n/a:out-of-place-segment:matches-at-the-destination'] = res['applic'].get('n/a:out-of-place-segment:matches-at-the-destination', 0) + 1
             continue
-        res['ops'].append((f['kind'], real_f, ops_f))
-        viol, info = judge(doc, base_nodes, f, run, nodes_f, len(seeds))
+        if use_trace:
+            res['ops'].append((f['kind'], real_f, ops_f))
+        viol, info = judge(doc, base_nodes if use_trace else base_cb, f, run, nodes_f, len(seeds))
         if info.get('na'):
             kk = 'n/a:%s:%s' % (f['kind'], info['na'])
             res['applic'][kk] = res['applic'].get(kk, 0) + 1
@@ -1056,20 +1108,30 @@ def run(tier):
                        'moved where it cannot match / required segment removed / segment beyond max_use / loop beyond repeat); '
                        'a case is (document, position, kind); distinct by (map, node path, element, kind)')
     run_xlate()
-    built = common.proof_stage(res, 'C03')
+    built = common.proof_stage(res, 'C03', targets=('Pyx12Verif', 'pyx12model', '+Pyx12Verif.Props.C03'))
     seed = common.seed()
     entries, jobs = plan(tier, seed)
     t0 = time.time()
-    deadline = t0 + (150 if tier != 'thorough' else 16 * 60)
+    deadline = t0 + int(os.environ.get('VERIF_C03_BUDGET_S', 150 if tier != 'thorough' else 14 * 60))
     jobs = [(entries, ei, seeds, p, mr, b, seed, deadline) for (ei, seeds, p, mr, b) in jobs]
     nproc = min(16, os.cpu_count() or 4)
     with multiprocessing.Pool(nproc) as pool:
         results = pool.map(work, jobs, chunksize=1)
     notes = dict(documents=0, documents_skipped={}, by_kind_map={}, applicable={}, run={}, error_kinds={}, rematch_cases=0,
-                 match_key_cases=0, multi_set_documents=0, segments=0, weak_oracle=0, timeouts=0)
+                 match_key_cases=0, multi_set_documents=0, segments=0, weak_oracle=0, timeouts=0, conformant_rejected={})
     tb = walkcorr.Tables() if built else None
     allops, spans, lines = [], [], []
+    c02_known = set(k.key for k in common.load_known() if k.prop == 'C02')
     for r in results:
+        for why, n in r['rejected_conformant'].items():
+            notes['conformant_rejected'][why] = notes['conformant_rejected'].get(why, 0) + n
+            if why not in c02_known:
+                # not one of the known C02 findings: the antecedent of C03 cannot be built - reported here as well
+                res.violation('conformant-rejected:' + why, '%s: the validator rejects a generated conformant document (%d time(s)); '
+                              'no fault could be injected into it' % (r['entry'], n),
+                              dict(map=r['entry'], document=r['rejected_docs'].get(why), kind='conformant', set=0, seg_id=None,
+                                   seg_count=None, primary=['none'], implied=[], isolated=True,
+                                   required='verdict True, no error (property C02)'))
         if r['skipped']:
             notes['documents_skipped'][r['entry']] = notes['documents_skipped'].get(r['entry'], 0) + 1
             notes.setdefault('skip_reasons', {}).setdefault(r['skipped'][:90], 0)
@@ -1093,7 +1155,7 @@ def run(tier):
             res.count()
             res.distinct((r['entry'], c['where'], c['ele'], c['subele'], c['kind'], c['sub']))
             notes['weak_oracle'] += 1 if c['weak'] else 0
-            if not c['viol'] and 'replay' in c:
+            if not c['viol'] and 'replay' in c and not c['weak']:
                 res.sample({'map': r['entry'], 'kind': c['kind'], 'where': c['where'], 'element': c['ele'],
                             'faulty_segment': c['replay']['faulty_segment'], 'observed': c['replay']['observed']})
             for key, what in c['viol']:
@@ -1109,16 +1171,30 @@ def run(tier):
     # ---- model ties
     ndis = 0
     if built and allops:
-        out = common.run_model(tb.loaded_lines + allops)[len(tb.loaded_lines):]
         nseg = 0
-        for (a, n, real, entry, kind) in spans:
-            mod = [walkcorr.model_view(x) for x in out[a + 1:a + n]]
-            nseg += len(real)
-            for si, (x, y) in enumerate(zip(real, mod)):
-                if strip_extra(x) != strip_extra(y):
-                    ndis += 1
-                    res.broke('correspondence:Walker.walk', '%s (%s) segment %d: real %s model %s' % (entry, kind, si, x, y))
-                    break
+        # the driver keeps the loaded maps per process: every batch is sent with the WMAP lines in front
+        batches, cur, size = [], [], 0
+        for sp in spans:
+            cur.append(sp)
+            size += sp[1]
+            if size > 250000:
+                batches.append(cur)
+                cur, size = [], 0
+        if cur:
+            batches.append(cur)
+        for batch in batches:
+            lo = batch[0][0]
+            hi = batch[-1][0] + batch[-1][1]
+            out = common.run_model(tb.loaded_lines + allops[lo:hi], chunk=10 ** 9)[len(tb.loaded_lines):]
+            for (a, n, real, entry, kind) in batch:
+                mod = [walkcorr.model_view(x) for x in out[a - lo + 1:a - lo + n]]
+                nseg += len(real)
+                for si, (x, y) in enumerate(zip(real, mod)):
+                    if x != y:
+                        ndis += 1
+                        if ndis <= 20:
+                            res.broke('correspondence:Walker.walk', '%s (%s) segment %d: real %s model %s' % (entry, kind, si, x, y))
+                        break
         res.count(nseg)
         notes['walker_segments_compared'] = nseg
     if built and lines:
@@ -1152,14 +1228,13 @@ def run(tier):
         'the 997/999 visitors - these are covered by the oracle on the real code only'])
 
 
-def strip_extra(x):
-    return x
-
-
 def replay(d):
     r = d['replay']
     run = pipeline.validate(r['document'])
     errs = read_tree(run.errh) if run.errh is not None else []
+    if r.get('kind') == 'conformant':
+        print('verdict', run.verdict, 'exception', run.exc, 'errors', errs[:4])
+        return 0 if (run.verdict is True and not errs) else 1
     print('verdict', run.verdict, 'exception', run.exc)
     for e in errs[:12]:
         print('  ', {k: v for k, v in e.items() if k in ('level', 'code', 'set', 'seg_id', 'seg_count', 'pos', 'sub')})
